@@ -34,7 +34,7 @@ fn emit_tok_family<T: Eq + Ord + ToString + Clone>(e: &mut Emit, fam: &str, item
             let (x, y, sx, sy) = if !all && rng.coin() { (b, a, sb, sa) } else { (a, b, sa, sb) };
             let o = observe_with(x, y, hs);
             e.out.count(&format!("tokpair {}", fam));
-            e.out.line(&format!("J eqstruct {} {} {} {} {} {} {}", fam, sx, sy, o.eq, o.cmp, o.hash, o.disp), "ok");
+            e.out.line(&format!("J eqstruct {} {} {} {} {} {} {} {}", fam, sx, sy, o.eq, o.cmp, o.hash, o.disp, o.pc), "ok");
         }
         let ceq = guarded(|| { let y = a.clone(); if &y == a && y.to_string() == a.to_string() { "1" } else { "0" } }).unwrap_or("PANIC");
         // the clone is given by the token of the original iff it is `==` and prints identically
@@ -103,7 +103,8 @@ fn tree_items(thorough: bool) -> Vec<Sh> {
 
 fn pol_items() -> Vec<P> {
     let leaves = vec![P::Key(0), P::Key(1), P::Older(5), P::Older(65541), P::Older(4194309), P::After(9), P::After(1000000000),
-        P::Hash(HK::Sha256, 1), P::Hash(HK::Hash256, 1), P::Hash(HK::Sha256, 2), P::U, P::T];
+        P::Hash(HK::Sha256, 1), P::Hash(HK::Hash256, 1), P::Hash(HK::Sha256, 2), P::Hash(HK::Hash256, 2),
+        P::Hash(HK::Ripemd160, 1), P::Hash(HK::Ripemd160, 2), P::Hash(HK::Hash160, 1), P::Hash(HK::Hash160, 2), P::U, P::T];
     let a = [P::Key(0), P::Key(1), P::Older(5), P::Older(65541)];
     let mut v = leaves.clone();
     for x in &leaves {
@@ -124,6 +125,15 @@ fn pol_items() -> Vec<P> {
             v.push(P::Or(vec![(1, x.clone()), (2, y.clone()), (3, z.clone())]));
             v.push(P::Thresh(2, vec![x.clone(), y.clone(), z.clone()]));
         }
+    } }
+    // or-weights: zero, proportional (1:2 vs 2:4), the largest usize
+    for (w1, w2) in [(0usize, 1usize), (1, 0), (0, 0), (2, 4), (4, 2), (usize::MAX, 1), (1, usize::MAX), (usize::MAX, usize::MAX)] {
+        v.push(P::Or(vec![(w1, P::Key(0)), (w2, P::Key(1))]));
+    }
+    // hashes under connectives (every kind, two values)
+    for kind in [HK::Sha256, HK::Hash256, HK::Ripemd160, HK::Hash160] { for h in [1, 2] {
+        v.push(P::And(vec![P::Key(0), P::Hash(kind, h)]));
+        v.push(P::Thresh(1, vec![P::Hash(kind, h), P::Key(0)]));
     } }
     // nesting: the same children under different connectives, and nested near-twins
     let n1 = P::And(vec![P::Key(0), P::Older(5)]);
@@ -208,7 +218,38 @@ fn dpk_desc_strings() -> Vec<String> {
     v.push(format!("wsh(sortedmulti(1,{},{}))", keys[3], keys[4]));
     v.push(format!("tr({},pk({}))", keys[3], keys[4]));
     v.push(format!("tr({},pk({}))", keys[4], keys[3]));
+    // one point as x-only key, as 02-key and as 03-key (the negated point): three different keys
+    let full = ast::full_key(0).to_string();
+    let x = full[2..].to_string();
+    let flipped = format!("{}{}", if full.starts_with("02") { "03" } else { "02" }, x);
+    for k in [x.clone(), full.clone(), flipped.clone()] {
+        v.push(format!("tr({})", k));
+        v.push(format!("tr({},pk({}))", full, k));
+        v.push(format!("tr({},pk({}))", k, x));
+    }
+    // an uncompressed single key (legal under pkh / sh)
+    let unc = ast::full_key(100).to_string();
+    v.push(format!("pkh({})", unc)); v.push(format!("sh(pk({}))", unc)); v.push(format!("pkh({})", flipped));
+    v.push(format!("pkh([78412e3a/0]{})", unc));
     v
+}
+
+/// definite keys only (no wildcard, no multipath)
+fn definite_desc_strings() -> Vec<String> {
+    dpk_desc_strings().into_iter().filter(|s| !s.contains('*') && !s.contains('<')).collect()
+}
+
+/// two spellings of ONE object (hardened marker `h` / `'`, with / without checksum): the judge
+/// is told they are identical (same token) and must see `==`, Equal, same hash, same string
+fn alias_pairs() -> Vec<(String, String)> {
+    let x1 = "xpub6ERApfZwUNrhLCkDtcHTcxd75RbzS1ed54G1LkBUHQVHQKqhMkhgbmJbZRkrgZw4koxb5JaHWkY4ALHY2grBGRjaDMzQLcgJvLJuZZvRcEL";
+    vec![
+        (format!("wpkh([78412e3a/44h/0h/0h]{}/0/*)", x1), format!("wpkh([78412e3a/44'/0'/0']{}/0/*)", x1)),
+        (format!("wpkh({}/0/*h)", x1), format!("wpkh({}/0/*')", x1)),
+        (format!("wsh(pk([78412e3a/1h]{}/<0;1>/*))", x1), format!("wsh(pk([78412e3a/1']{}/<0;1>/*))", x1)),
+        (format!("tr({}/1h/2)", x1), format!("tr({}/1'/2)", x1)),
+        (format!("pkh([78412E3A/0h]{})", ast::full_key(0)), format!("pkh([78412e3a/0']{})", ast::full_key(0))),
+    ]
 }
 
 pub fn run(e: &mut Emit, thorough: bool, rng: &mut Rng) {
@@ -252,5 +293,18 @@ pub fn run(e: &mut Emit, thorough: bool, rng: &mut Rng) {
     let dd = str_items::<Descriptor<DescriptorPublicKey>>(&dpk_desc_strings(), e.out, "descriptor-dpk");
     e.out.note("descriptor-dpk items", dd.len().to_string());
     emit_str_family(e, "descriptor-dpk", &dd, rng, if thorough { 3000 } else { 500 }, &|a, b| hash_same(a, b));
-    let _ = DescriptorPublicKey::from_str;
+    let df = str_items::<Descriptor<miniscript::DefiniteDescriptorKey>>(&definite_desc_strings(), e.out, "descriptor-definite");
+    e.out.note("descriptor-definite items", df.len().to_string());
+    emit_str_family(e, "descriptor-definite", &df, rng, if thorough { 2000 } else { 300 }, &|a, b| hash_same(a, b));
+    for (s1, s2) in alias_pairs() {
+        match (guarded(|| Descriptor::<DescriptorPublicKey>::from_str(&s1)), guarded(|| Descriptor::<DescriptorPublicKey>::from_str(&s2))) {
+            (Some(Ok(a)), Some(Ok(b))) => {
+                let tok = a.to_string();
+                let o = if s1.len() % 2 == 0 { observe(&a, &b) } else { observe(&b, &a) };
+                e.out.count("pair dpk-alias");
+                e.out.line(&format!("J eqstruct descriptor-dpk-alias {} {} {} {} {} {} {}", tok, tok, o.eq, o.cmp, o.hash, o.disp, o.pc), "ok");
+            }
+            _ => e.out.count("dpk-alias unparsed"),
+        }
+    }
 }
